@@ -57,15 +57,13 @@ func Run(c *core.Ctx) error {
 				var sc *scenario
 				if msg := core.Guard(func() { sc = j.f(r, j.gen, j.cas) }); msg != "" {
 					emit.Lock()
-					t.Reset(j.gen, j.cas, core.Ev{"queue": false, "qcap": 0, "deflic": "-", "lics": core.Ev{}, "proph": []core.Ev{}})
-					t.Emit(core.Ev{"ev": "HarnessProblem", "msg": "scenario panicked: " + msg})
+					void(c, t, j.gen, j.cas, []string{"the scenario script panicked: " + msg})
 					emit.Unlock()
 					return
 				}
 				if sc == nil {
 					emit.Lock()
-					t.Reset(j.gen, j.cas, core.Ev{"queue": false, "qcap": 0, "deflic": "-", "lics": core.Ev{}, "proph": []core.Ev{}})
-					t.Emit(core.Ev{"ev": "HarnessProblem", "msg": "collector could not be set up"})
+					void(c, t, j.gen, j.cas, []string{"the collector could not be set up"})
 					emit.Unlock()
 					return
 				}
